@@ -1217,6 +1217,54 @@ fn ffi_convert(req: &J) -> J {
     }
 }
 
+/// policy set text (+ optional links of its templates) -> protobuf bytes -> policy set: every policy and template compared by scope, effect, rendered text
+fn proto_roundtrip(req: &J) -> J {
+    use cedar_policy::proto::traits::Protobuf;
+    use cedar_policy::{ActionConstraint as AC, EntityUid, PolicyId, PrincipalConstraint as PC, ResourceConstraint as RC, SlotId};
+    use std::str::FromStr;
+    let mut ps = match PolicySet::from_str(req["policies"].as_str().unwrap_or("")) { Ok(p) => p, Err(e) => return json!({"input_error": e.to_string()}) };
+    for l in req["links"].as_array().cloned().unwrap_or_default() {
+        let mut vals = std::collections::HashMap::new();
+        for (slot, e) in l["values"].as_object().cloned().unwrap_or_default() {
+            let s = if slot == "?principal" { SlotId::principal() } else { SlotId::resource() };
+            match EntityUid::from_str(e.as_str().unwrap_or("")) { Ok(u) => { vals.insert(s, u); } Err(e) => return json!({"input_error": e.to_string()}) }
+        }
+        if let Err(e) = ps.link(PolicyId::new(l["template"].as_str().unwrap_or("")), PolicyId::new(l["id"].as_str().unwrap_or("")), vals) { return json!({"input_error": e.to_string()}); }
+    }
+    let bytes = match ps.encode() { Ok(b) => b, Err(e) => return json!({"encode_error": e.to_string()}) };
+    let back = match PolicySet::decode(&bytes[..]) { Ok(p) => p, Err(e) => return json!({"equal": false, "why": format!("decode error: {e}")}) };
+    let scope = |p: &cedar_policy::Policy| {
+        let pc = match p.principal_constraint() { PC::Any => "any".to_string(), PC::In(u) => format!("in {u}"), PC::Eq(u) => format!("== {u}"), PC::Is(t) => format!("is {t}"), PC::IsIn(t, u) => format!("is {t} in {u}") };
+        let rc = match p.resource_constraint() { RC::Any => "any".to_string(), RC::In(u) => format!("in {u}"), RC::Eq(u) => format!("== {u}"), RC::Is(t) => format!("is {t}"), RC::IsIn(t, u) => format!("is {t} in {u}") };
+        let ac = match p.action_constraint() { AC::Any => "any".to_string(), AC::In(us) => format!("in [{}]", us.iter().map(|u| u.to_string()).collect::<Vec<_>>().join(", ")), AC::Eq(u) => format!("== {u}") };
+        format!("{:?} principal {pc} / action {ac} / resource {rc} / template {:?}", p.effect(), p.template_id().map(|t| t.to_string()))
+    };
+    let mut ids: Vec<String> = ps.policies().map(|p| p.id().to_string()).collect();
+    ids.sort();
+    let mut ids2: Vec<String> = back.policies().map(|p| p.id().to_string()).collect();
+    ids2.sort();
+    if ids != ids2 { return json!({"equal": false, "why": format!("policy ids {ids:?} came back as {ids2:?}")}); }
+    for id in &ids {
+        let (a, b) = (ps.policy(&PolicyId::new(id)), back.policy(&PolicyId::new(id)));
+        if let (Some(a), Some(b)) = (a, b) {
+            if scope(a) != scope(b) { return json!({"equal": false, "why": format!("policy {id}: scope `{}` came back as `{}`", scope(a), scope(b))}); }
+            // `==` on API policies compares the ASTs (source locations and the lossless text are not part of it)
+            if a != b { return json!({"equal": false, "why": format!("policy {id}: `{a}` came back as `{b}` (not == on the AST)")}); }
+        }
+    }
+    let mut ts: Vec<String> = ps.templates().map(|t| t.id().to_string()).collect();
+    ts.sort();
+    let mut ts2: Vec<String> = back.templates().map(|t| t.id().to_string()).collect();
+    ts2.sort();
+    if ts != ts2 { return json!({"equal": false, "why": format!("template ids {ts:?} came back as {ts2:?}")}); }
+    for id in &ts {
+        if let (Some(a), Some(b)) = (ps.template(&PolicyId::new(id)), back.template(&PolicyId::new(id))) {
+            if a != b { return json!({"equal": false, "why": format!("template {id}: `{a}` came back as `{b}` (not == on the AST)")}); }
+        }
+    }
+    json!({"equal": true, "policies": ids.len(), "templates": ts.len(), "bytes": bytes.len()})
+}
+
 fn handle(req: &J) -> J {
     match req["op"].as_str().unwrap_or("") {
         "eval" => eval(req),
@@ -1238,6 +1286,7 @@ fn handle(req: &J) -> J {
         "ffi_shapes" => ffi_shapes(req),
         "ffi_history" => ffi_history(req),
         "ffi_validate" => ffi_validate(req),
+        "proto_roundtrip" => proto_roundtrip(req),
         "ffi_convert" => ffi_convert(req),
         other => json!({"unknown_op": other}),
     }
